@@ -1,2 +1,82 @@
-(* placeholder: property theorems are added with Proofs.v *)
-From LV Require Import Sweep.Model.
+(* C18 property theorems (statements only; proofs are in Final.v).
+   Model: Sweep/Model.v with float64 = Flocq binary64.  Domain constants
+   (Proofs.v): RMAX = 2^30 sat/kw, WMAX = 2^32, BMAX = 2^62 sat.
+
+   ff_premises maxr conf relay so :=
+     0 <= maxr <= RMAX /\ 0 <= conf < WMAX /\ start_ok maxr relay so
+   start_ok maxr relay (Some s) := 0 <= s <= maxr      (caller-supplied start)
+   start_ok maxr relay None     := 0 <= relay <= maxr /\ 0 < maxr  (estimator path)
+   frun f ops = the fee function after any sequence of Increment (FInc) /
+   IncreaseFeeRate c (FConf c) calls, errors leaving the state unchanged. *)
+From Coq Require Import ZArith List Bool Permutation Sorted.
+From LV Require Import Sweep.Model Sweep.Proofs Sweep.FloatProofs Sweep.Final.
+Import ListNotations.
+Local Open Scope Z_scope.
+
+(* the two float64 scalings are non-negative, bounded and monotone on the domain *)
+Theorem C18_float_scalings_monotone : scalings_ok f_scale_delta f_scale_pos.
+Proof. exact float_scalings_ok. Qed.
+
+(* the offered rate never exceeds the ceiling, after any op sequence, for any
+   estimator answer; feeRateAtPosition itself is capped at every position *)
+Theorem C18_cap : forall maxr conf relay ans so f0 ops,
+  ff_premises maxr conf relay so -> new_ff64 maxr conf relay ans so = Ok f0 ->
+  ff_cur (frun64 f0 ops) <= maxr /\
+  (forall p, rate_at_pos64 (frun64 f0 ops) p <= maxr).
+Proof. exact c18_cap. Qed.
+
+(* the offered rate never decreases: per op, across any suffix, and
+   feeRateAtPosition is monotone in the position *)
+Theorem C18_monotone : forall maxr conf relay ans so f0,
+  ff_premises maxr conf relay so -> new_ff64 maxr conf relay ans so = Ok f0 ->
+  (forall ops o, ff_cur (frun64 f0 ops) <= ff_cur (fstep64 (frun64 f0 ops) o)) /\
+  (forall ops ops', ff_cur (frun64 f0 ops) <= ff_cur (frun64 f0 (ops ++ ops'))) /\
+  (forall p q, 0 <= p <= q -> rate_at_pos64 f0 p <= rate_at_pos64 f0 q).
+Proof. exact c18_monotone. Qed.
+
+(* conf target <= 1 starts at the ceiling; any IncreaseFeeRate with conf target
+   <= 1 (in particular the block at deadline-1, also after skipped heights)
+   puts the rate on the ceiling and it stays there *)
+Theorem C18_reaches_ceiling : forall maxr conf relay ans so f0,
+  ff_premises maxr conf relay so -> new_ff64 maxr conf relay ans so = Ok f0 ->
+  (conf <= 1 -> ff_cur f0 = maxr) /\
+  (forall ops c ops', 0 <= c <= 1 -> ff_cur (frun64 f0 (ops ++ FConf c :: ops')) = maxr) /\
+  (forall ops h dl ops', - 2147483648 <= dl - h < 2147483648 -> dl - 1 <= h ->
+     ff_cur (frun64 f0 (ops ++ FConf (calc_conf_target h dl) :: ops')) = maxr).
+Proof. exact c18_reaches_ceiling. Qed.
+
+(* estimator path: start is at least the relay floor whenever floor <= ceiling *)
+Theorem C18_floor : forall maxr conf relay ans f0,
+  0 <= maxr <= RMAX -> 1 < conf < WMAX -> 0 <= relay <= maxr -> 0 < maxr ->
+  new_ff64 maxr conf relay ans None = Ok f0 ->
+  relay <= ff_cur f0 <= maxr.
+Proof. exact c18_floor. Qed.
+
+(* every tx that passes createAndCheckTx's budget guard: fee <= budget, spends
+   exactly the requested inputs, pays exactly in - out, reproduces the required
+   outputs, and its change (if any) is >= the dust limit *)
+Theorem C18_budget : forall ins weight floor budget rate t,
+  create_checked ins weight floor budget rate = Ok t ->
+  tx_ok ins floor budget t /\
+  (0 <= rate <= RMAX -> 0 <= weight < WMAX -> 0 <= rate * weight / 1000 <= tx_fee t).
+Proof. exact c18_budget. Qed.
+
+(* publisher: for ANY estimator answer, mempool verdicts and block heights the
+   published (rate, tx) sequence is within MaxFeeRate and budget, spends all
+   inputs, has no dust change, and its rates never decrease *)
+Theorem C18_published_trace_ok :
+  forall ins weight floor budget maxrate h0 dl relay ans so vs bl,
+  0 <= budget <= BMAX -> 1 <= weight < WMAX -> 0 <= maxrate <= RMAX ->
+  start_ok (max_fee_rate_allowed64 budget weight maxrate) relay so ->
+  let tr := pub_trace64 ins weight floor budget maxrate h0 dl relay ans so vs bl in
+  Forall (entry_ok ins floor budget maxrate) tr /\ Sorted Z.le (map fst tr).
+Proof. exact c18_published_trace_ok. Qed.
+
+(* without start_ok the cap and monotonicity FAIL on the faithful model:
+   maxFeeRate 500, confTarget 10, StartingFeeRate Some 1000 *)
+Theorem C18_start_above_end_refuted :
+  exists maxr conf relay ans s f0,
+    new_ff64 maxr conf relay ans (Some s) = Ok f0 /\
+    maxr < ff_cur f0 /\
+    ff_cur (fstep64 f0 FInc) < ff_cur f0.
+Proof. exact c18_start_above_end_refuted. Qed.
